@@ -1,15 +1,22 @@
-// C14 harness: the real Topology.vacuumOneVolumeLayout (through the verif hook)
-// against in-process fake volume servers (gRPC on 127.0.0.1) with a scripted
-// outcome per (volume, replica, phase).  The layout and the registered state are
-// built with real heartbeats first.  Observed: the RPCs every replica received,
-// in order, and the writables before / after the round.
+// C14 harness: the real Topology.Vacuum against in-process fake volume servers
+// (gRPC on 127.0.0.1) with a scripted outcome per (volume, replica, phase), one or
+// more passes per case.  The layout and the registered state are built with real
+// heartbeats; more events are processed before a pass and - from inside the fake
+// Compact handler, i.e. after removeFromWritable and before the commit - while the
+// replicas compact.  A second real master (the control) gets the same events at
+// the same moments and never vacuums.  Observed per pass: the RPCs every replica
+// received, in order; writables, lookups, readonly/oversized sets and registered
+// state of the vacuuming master; writables and lookups of the control; whether
+// Topology.Vacuum returned; whether it panicked.
 //
 // Timeouts: the master computes its timers as
-//   time.Minute * time.Duration(volumeSizeLimit/1024/1024/1000+1)   (check; 3x for compact)
-// and they are not parameters.  For cases that script a timeout the harness sets
-// Topology.volumeSizeLimit (only that field, after the layout exists) to a value
-// for which this int64 product wraps around to 647 ms (1.94 s for compact), so
-// the real timer branches run.  The commit and cleanup RPCs have no timer at all.
+//
+//	time.Minute * time.Duration(volumeSizeLimit/1024/1024/1000+1)   (check; 3x for compact)
+//
+// and they are not parameters.  For passes that script a timeout the harness sets
+// Topology.volumeSizeLimit (only that field, for the duration of the pass) to a
+// value for which this int64 product wraps around to 647 ms (1.94 s for compact),
+// so the real timer branches run.  The commit and cleanup RPCs have no timer at all.
 package main
 
 import (
@@ -40,6 +47,8 @@ import (
 
 const limit = 100 // volumeSizeLimit of the layouts
 
+const threshold = 0.3 // garbage threshold of every pass
+
 // (4919131753-1)*1048576000: time.Minute*time.Duration(x/1024/1024/1000+1) == 647174144ns
 const timerLimit = uint64(4919131752) * 1048576000
 
@@ -48,6 +57,8 @@ const (
 	ckUnder
 	ckErr
 	ckTimeout
+	ckDial // nobody listens: the server is stopped before the pass
+	ckEq   // answers with a ratio exactly equal to the threshold: "over" for the model (>=)
 )
 const (
 	cpOk = iota
@@ -58,15 +69,16 @@ const (
 	cmOk = iota
 	cmOkRO
 	cmErr
+	cmHang
 )
 
 type script struct{ ck, cp, cm int }
 
 func (s script) coq() string {
 	return fmt.Sprintf("{| sc_ck := %s; sc_cp := %s; sc_cm := %s |}",
-		[]string{"CkOver", "CkUnder", "CkErr", "CkTimeout"}[s.ck],
+		[]string{"CkOver", "CkUnder", "CkErr", "CkTimeout", "CkDial", "CkOver"}[s.ck],
 		[]string{"CpOk", "CpErr", "CpTimeout"}[s.cp],
-		[]string{"CmOk", "CmOkRO", "CmErr"}[s.cm])
+		[]string{"CmOk", "CmOkRO", "CmErr", "CmHang"}[s.cm])
 }
 func (s script) canon() string { return fmt.Sprintf("%d%d%d", s.ck, s.cp, s.cm) }
 
@@ -74,14 +86,18 @@ func (s script) canon() string { return fmt.Sprintf("%d%d%d", s.ck, s.cp, s.cm) 
 
 type fakeVS struct {
 	volume_server_pb.UnimplementedVolumeServerServer
-	mu       sync.Mutex
-	scripts  map[uint32]script
-	log      map[uint32][]string
-	release  chan struct{}
-	inflight sync.WaitGroup
-	port     int // listener port
-	srv      *grpc.Server
-	at       map[string]time.Time // "vid/rpc" -> time of receipt (only used to detect an overloaded machine)
+	mu          sync.Mutex
+	scripts     map[uint32]script
+	log         map[uint32][]string
+	release     chan struct{} // closed at the end of a pass: frees check/compact handlers scripted not to answer
+	hangRelease chan struct{} // closed at the end of the case: frees commit handlers scripted not to answer
+	hangEntered chan struct{} // signalled when a commit handler starts to hang
+	onCompact   func(vid uint32)
+	inflight    sync.WaitGroup
+	hanging     sync.WaitGroup
+	port        int // listener port
+	srv         *grpc.Server
+	at          map[string]time.Time // "vid/rpc" -> time of receipt (only used to detect an overloaded machine)
 }
 
 func (f *fakeVS) receivedAt(vid uint32, rpc string) (time.Time, bool) {
@@ -123,8 +139,10 @@ func (f *fakeVS) VacuumVolumeCheck(ctx context.Context, req *volume_server_pb.Va
 	switch s.ck {
 	case ckOver:
 		return &volume_server_pb.VacuumVolumeCheckResponse{GarbageRatio: 0.9}, nil
+	case ckEq:
+		return &volume_server_pb.VacuumVolumeCheckResponse{GarbageRatio: threshold}, nil
 	case ckUnder:
-		return &volume_server_pb.VacuumVolumeCheckResponse{GarbageRatio: 0.1}, nil
+		return &volume_server_pb.VacuumVolumeCheckResponse{GarbageRatio: 0.29999}, nil
 	case ckErr:
 		return nil, errScripted
 	}
@@ -135,6 +153,12 @@ func (f *fakeVS) VacuumVolumeCompact(ctx context.Context, req *volume_server_pb.
 	f.inflight.Add(1)
 	defer f.inflight.Done()
 	s, rel := f.enter(req.VolumeId, "RCompact")
+	f.mu.Lock()
+	hook := f.onCompact
+	f.mu.Unlock()
+	if hook != nil {
+		hook(req.VolumeId) // the master-side events of this round (once per vid and pass)
+	}
 	switch s.cp {
 	case cpOk:
 		return &volume_server_pb.VacuumVolumeCompactResponse{}, nil
@@ -145,14 +169,21 @@ func (f *fakeVS) VacuumVolumeCompact(ctx context.Context, req *volume_server_pb.
 }
 
 func (f *fakeVS) VacuumVolumeCommit(ctx context.Context, req *volume_server_pb.VacuumVolumeCommitRequest) (*volume_server_pb.VacuumVolumeCommitResponse, error) {
-	f.inflight.Add(1)
-	defer f.inflight.Done()
 	s, _ := f.enter(req.VolumeId, "RCommit")
 	switch s.cm {
 	case cmOk:
 		return &volume_server_pb.VacuumVolumeCommitResponse{IsReadOnly: false}, nil
 	case cmOkRO:
 		return &volume_server_pb.VacuumVolumeCommitResponse{IsReadOnly: true}, nil
+	case cmHang:
+		f.hanging.Add(1)
+		defer f.hanging.Done()
+		select {
+		case f.hangEntered <- struct{}{}:
+		default:
+		}
+		<-f.hangRelease // the master's context has no deadline: only the harness ends this
+		return nil, status.Error(codes.Unavailable, "scripted: no answer")
 	}
 	return nil, errScripted
 }
@@ -175,11 +206,34 @@ func startFake() *fakeVS {
 			lis.Close()
 			continue
 		}
-		f := &fakeVS{port: p, scripts: map[uint32]script{}, log: map[uint32][]string{}, release: make(chan struct{})}
+		f := &fakeVS{port: p, scripts: map[uint32]script{}, log: map[uint32][]string{}, release: make(chan struct{}),
+			hangRelease: make(chan struct{}), hangEntered: make(chan struct{}, 4)}
 		f.srv = grpc.NewServer()
 		volume_server_pb.RegisterVolumeServerServer(f.srv, f)
 		go f.srv.Serve(lis)
 		return f
+	}
+}
+
+// A fake server whose (cached) gRPC connection from this process is established:
+// one call for volume 0, which no case uses, before any timed round.  The master
+// side caches one connection per address; should the OS hand out the port of a
+// server that an earlier case stopped (dial-failure script), the cached connection
+// is broken: such a fake is kept (so that the port stays taken) and another started.
+func startConnectedFake() *fakeVS {
+	for attempt := 0; ; attempt++ {
+		f := startFake()
+		err := operation.WithVolumeServerClient(fmt.Sprintf("127.0.0.1:%d", f.port-10000), grpc.WithInsecure(),
+			func(c volume_server_pb.VolumeServerClient) error {
+				_, err := c.VacuumVolumeCheck(context.Background(), &volume_server_pb.VacuumVolumeCheckRequest{VolumeId: 0})
+				return err
+			})
+		if err == nil {
+			return f
+		}
+		if attempt > 20 {
+			hx.Must(err)
+		}
 	}
 }
 
@@ -240,23 +294,40 @@ func (e event) canon() string {
 	}
 }
 
-type tcase struct {
-	rp      string
-	asMin   bool
-	nodes   int
-	nv      int
-	setup   []event
+func evsCoq(es []event) string {
+	xs := make([]string, len(es))
+	for i, e := range es {
+		xs[i] = e.coq()
+	}
+	return hx.List(xs)
+}
+func evsCanon(es []event) string {
+	xs := make([]string, len(es))
+	for i, e := range es {
+		xs[i] = e.canon()
+	}
+	return strings.Join(xs, ";")
+}
+
+type pass struct {
+	pre     []event
 	scripts map[uint32]map[int]script // vid -> node -> script
-	kind    string
+	mid     map[uint32][]event        // vid -> events while that vid's replicas compact
+}
+
+type tcase struct {
+	rp     string
+	asMin  bool
+	nodes  int
+	nv     int
+	setup  []event
+	passes []pass
+	kind   string
 }
 
 type result struct {
 	term, canon string
 	nontrivial  bool
-}
-
-type worker struct {
-	fakes []*fakeVS // index node-1
 }
 
 func copies(rp string) int {
@@ -267,12 +338,128 @@ func copies(rp string) int {
 	return c
 }
 
+// one real master
+type master struct {
+	topo  *topology.Topology
+	dns   map[int]*topology.DataNode
+	ports []int // HTTP port of node i+1
+	rpb   uint32
+}
+
+func newMaster(asMin bool, ports []int, rpb uint32) *master {
+	return &master{topo: topology.VerifC11NewTopology(limit, 5, asMin), dns: map[int]*topology.DataNode{}, ports: ports, rpb: rpb}
+}
+
+func (m *master) dn(n int) *topology.DataNode {
+	if d := m.dns[n]; d != nil {
+		return d
+	}
+	dc := m.topo.GetOrCreateDataCenter("dc1")
+	rack := dc.GetOrCreateRack(fmt.Sprintf("rack%d", n%2))
+	d := rack.GetOrCreateDataNode("127.0.0.1", m.ports[n-1], "127.0.0.1", map[string]uint32{"": 50})
+	m.dns[n] = d
+	return d
+}
+
+func (m *master) nodeOf(d *topology.DataNode) int {
+	for i, p := range m.ports {
+		if p == d.Port {
+			return i + 1
+		}
+	}
+	panic("unknown data node")
+}
+
+func (m *master) apply(e event) {
+	switch e.kind {
+	case "full":
+		var msgs []*master_pb.VolumeInformationMessage
+		for _, v := range e.vols {
+			msgs = append(msgs, &master_pb.VolumeInformationMessage{Id: v.id, Size: v.size, ReadOnly: v.ro,
+				ReplicaPlacement: m.rpb, Version: uint32(needle.CurrentVersion), FileCount: 3})
+		}
+		m.topo.SyncDataNodeRegistration(msgs, m.dn(e.node))
+	case "incr":
+		short := func(ids []uint32) (out []*master_pb.VolumeShortInformationMessage) {
+			for _, id := range ids {
+				out = append(out, &master_pb.VolumeShortInformationMessage{Id: id, ReplicaPlacement: m.rpb,
+					Version: uint32(needle.CurrentVersion)})
+			}
+			return
+		}
+		m.topo.IncrementalSyncDataNodeRegistration(short(e.news), short(e.dels), m.dn(e.node))
+	case "collect":
+		topology.VerifC14CollectFull(m.topo, limit, 0.9)
+	case "disc":
+		if d := m.dns[e.node]; d != nil {
+			m.topo.UnRegisterDataNode(d)
+			delete(m.dns, e.node)
+		}
+	}
+}
+
+func sortedU32(xs []uint32) string {
+	ys := append([]uint32{}, xs...)
+	sort.Slice(ys, func(i, j int) bool { return ys[i] < ys[j] })
+	ss := make([]string, len(ys))
+	for i, y := range ys {
+		ss[i] = fmt.Sprint(y)
+	}
+	return "[" + strings.Join(ss, "; ") + "]%N"
+}
+
+func (m *master) layout(rp *super_block.ReplicaPlacement) *topology.VolumeLayout {
+	return m.topo.GetVolumeLayout("", rp, needle.EMPTY_TTL, types.HardDriveType)
+}
+
+func (m *master) looks(nv int) string {
+	var look []string
+	for v := 1; v <= nv; v++ {
+		var ns []int
+		for _, d := range m.topo.Lookup("", needle.VolumeId(v)) {
+			ns = append(ns, m.nodeOf(d))
+		}
+		sort.Ints(ns)
+		ss := make([]string, len(ns))
+		for i, n := range ns {
+			ss[i] = fmt.Sprint(n)
+		}
+		look = append(look, fmt.Sprintf("(%d, [%s])", v, strings.Join(ss, "; ")))
+	}
+	return "[" + strings.Join(look, "; ") + "]%N"
+}
+
+func (m *master) regs(nodes int) string {
+	var reg []string
+	for n := 1; n <= nodes; n++ {
+		d := m.dns[n]
+		if d == nil {
+			continue
+		}
+		vols := d.GetVolumes()
+		if len(vols) == 0 {
+			continue
+		}
+		sort.Slice(vols, func(i, j int) bool { return vols[i].Id < vols[j].Id })
+		vs := make([]string, len(vols))
+		for i, v := range vols {
+			vs[i] = fmt.Sprintf("(%d, (%d, %s))", uint32(v.Id), v.Size, hx.Bool(v.ReadOnly))
+		}
+		reg = append(reg, fmt.Sprintf("(%d, [%s])", n, strings.Join(vs, "; ")))
+	}
+	return "[" + strings.Join(reg, "; ") + "]%N"
+}
+
+type worker struct {
+	fakes []*fakeVS // index node-1
+}
+
 // Every case gets fresh fake servers (fresh addresses): the master caches one gRPC
 // connection per address and tears it down after a few failed calls, which could
 // otherwise make a call of the next case fail before it reaches the server.  The
 // servers stay up until the process exits so that no port (address) is reused.
 //
-// A case that uses the master's (shortened) timers is only meaningful if the
+// A pass that uses the master's (shortened) timers is only meaningful if the
 // machine delivers a local RPC well within 647 ms.  runOnce reports "suspicious"
 // when a request reached its fake server late (measured on the server side,
 // independent of the model); such a run is discarded and the case is run again.
@@ -293,212 +480,237 @@ var retries int64
 
 func (w *worker) runOnce(tc tcase) (result, bool) {
 	w.fakes = nil
+	var ports []int
 	for n := 1; n <= tc.nodes; n++ {
-		w.fakes = append(w.fakes, startFake())
+		f := startConnectedFake()
+		w.fakes = append(w.fakes, f)
+		ports = append(ports, f.port-10000)
 	}
 	rp, err := super_block.NewReplicaPlacementFromString(tc.rp)
 	hx.Must(err)
 	rpb := uint32(rp.Byte())
-	topo := topology.VerifC11NewTopology(limit, 5, tc.asMin)
-	dns := map[int]*topology.DataNode{}
-	dn := func(n int) *topology.DataNode {
-		if d := dns[n]; d != nil {
-			return d
-		}
-		dc := topo.GetOrCreateDataCenter("dc1")
-		rack := dc.GetOrCreateRack(fmt.Sprintf("rack%d", n%2))
-		d := rack.GetOrCreateDataNode("127.0.0.1", w.fakes[n-1].port-10000, "127.0.0.1", map[string]uint32{"": 50})
-		dns[n] = d
-		return d
-	}
-	nodeOf := func(d *topology.DataNode) int {
-		for i, f := range w.fakes {
-			if f.port-10000 == d.Port {
-				return i + 1
-			}
-		}
-		panic("unknown data node")
-	}
+	m := newMaster(tc.asMin, ports, rpb)   // the master that vacuums
+	ctl := newMaster(tc.asMin, ports, rpb) // the master that never vacuums
 	for _, e := range tc.setup {
-		switch e.kind {
-		case "full":
-			var msgs []*master_pb.VolumeInformationMessage
-			for _, v := range e.vols {
-				msgs = append(msgs, &master_pb.VolumeInformationMessage{Id: v.id, Size: v.size, ReadOnly: v.ro,
-					ReplicaPlacement: rpb, Version: uint32(needle.CurrentVersion), FileCount: 3})
-			}
-			topo.SyncDataNodeRegistration(msgs, dn(e.node))
-		case "incr":
-			short := func(ids []uint32) (out []*master_pb.VolumeShortInformationMessage) {
-				for _, id := range ids {
-					out = append(out, &master_pb.VolumeShortInformationMessage{Id: id, ReplicaPlacement: rpb,
-						Version: uint32(needle.CurrentVersion)})
-				}
-				return
-			}
-			topo.IncrementalSyncDataNodeRegistration(short(e.news), short(e.dels), dn(e.node))
-		case "collect":
-			topology.VerifC11CollectFull(topo, 0.9)
-		case "disc":
-			if d := dns[e.node]; d != nil {
-				topo.UnRegisterDataNode(d)
-				delete(dns, e.node)
-			}
-		}
+		m.apply(e)
+		ctl.apply(e)
 	}
-	vl := topo.GetVolumeLayout("", rp, needle.EMPTY_TTL, types.HardDriveType)
-
-	// script the fake servers for this case
-	needTimer := false
-	for n := 1; n <= tc.nodes; n++ {
-		f := w.fakes[n-1]
-		f.mu.Lock()
-		f.scripts = map[uint32]script{}
-		f.log = map[uint32][]string{}
-		f.release = make(chan struct{})
-		for vid, m := range tc.scripts {
-			if s, ok := m[n]; ok {
-				f.scripts[vid] = s
-				if s.ck == ckTimeout || s.cp == cpTimeout {
-					needTimer = true
-				}
-			}
-		}
-		f.mu.Unlock()
-	}
-	if needTimer {
-		topology.VerifC14SetTopologyVolumeSizeLimit(topo, timerLimit)
-	}
-	sorted := func(xs []uint32) string {
-		ys := append([]uint32{}, xs...)
-		sort.Slice(ys, func(i, j int) bool { return ys[i] < ys[j] })
-		ss := make([]string, len(ys))
-		for i, y := range ys {
-			ss[i] = fmt.Sprint(y)
-		}
-		return "[" + strings.Join(ss, "; ") + "]%N"
-	}
-	before := sorted(topology.VerifC11Writables(vl))
-
-	// establish the (cached) gRPC connections before the timed round: one call for
-	// volume 0, which no case uses
-	for _, f := range w.fakes {
-		hx.Must(operation.WithVolumeServerClient(fmt.Sprintf("127.0.0.1:%d", f.port-10000), grpc.WithInsecure(),
-			func(c volume_server_pb.VolumeServerClient) error {
-				_, err := c.VacuumVolumeCheck(context.Background(), &volume_server_pb.VacuumVolumeCheckRequest{VolumeId: 0})
-				return err
-			}))
-	}
-
-	t0 := time.Now()
-	topology.VerifC14VacuumOneVolumeLayout(topo, grpc.WithInsecure(), vl, "", 0.3, 0)
+	before := sortedU32(topology.VerifC11Writables(m.layout(rp)))
 
 	suspicious := false
-	if needTimer { // such cases have one vid (1)
-		count := func() (n int, last time.Time) {
-			for _, f := range w.fakes {
-				if t, ok := f.receivedAt(1, "RCheck"); ok {
-					n++
-					if t.After(last) {
-						last = t
-					}
-					if t.Sub(t0) > 250*time.Millisecond {
-						suspicious = true
-					}
-				}
-			}
-			return
-		}
-		nCheck, lastCheck := count()
-		if nCheck < len(topo.Lookup("", needle.VolumeId(1))) {
-			// either the round was skipped before the check phase (no request at all)
-			// or a request is still on its way
-			time.Sleep(300 * time.Millisecond)
-			if n2, _ := count(); n2 != nCheck || nCheck != 0 {
-				suspicious = true
-			}
-		}
-		for _, f := range w.fakes {
-			if t, ok := f.receivedAt(1, "RCompact"); ok && t.Sub(lastCheck) > 400*time.Millisecond {
-				suspicious = true
-			}
-		}
-	}
-
-	after := sorted(topology.VerifC11Writables(vl))
-	var look, vids, nodes, reg, logs, scs, canon []string
 	nontrivial := false
-	for v := 1; v <= tc.nv; v++ {
-		vids = append(vids, fmt.Sprint(v))
-		var ns []int
-		for _, d := range topo.Lookup("", needle.VolumeId(v)) {
-			ns = append(ns, nodeOf(d))
+	panicked := false
+	var hungDone chan struct{} // the Vacuum call that has not returned
+	var obs, passTerms, canon []string
+
+	for _, p := range tc.passes {
+		if !panicked {
+			for _, e := range p.pre {
+				m.apply(e)
+				ctl.apply(e)
+			}
 		}
-		sort.Ints(ns)
-		ss := make([]string, len(ns))
-		for i, n := range ns {
-			ss[i] = fmt.Sprint(n)
+		// script the fake servers for this pass
+		needTimer := false
+		onces := map[uint32]*sync.Once{}
+		for vid := range p.mid {
+			onces[vid] = &sync.Once{}
 		}
-		look = append(look, fmt.Sprintf("(%d, [%s])", v, strings.Join(ss, "; ")))
-	}
-	for n := 1; n <= tc.nodes; n++ {
-		nodes = append(nodes, fmt.Sprint(n))
-		d := dns[n]
-		if d == nil {
-			continue
+		hook := func(vid uint32) {
+			if o := onces[vid]; o != nil {
+				o.Do(func() {
+					for _, e := range p.mid[vid] {
+						m.apply(e)
+						ctl.apply(e)
+					}
+				})
+			}
 		}
-		vols := d.GetVolumes()
-		if len(vols) == 0 {
-			continue
-		}
-		sort.Slice(vols, func(i, j int) bool { return vols[i].Id < vols[j].Id })
-		vs := make([]string, len(vols))
-		for i, v := range vols {
-			vs[i] = fmt.Sprintf("(%d, (%d, %s))", uint32(v.Id), v.Size, hx.Bool(v.ReadOnly))
-		}
-		reg = append(reg, fmt.Sprintf("(%d, [%s])", n, strings.Join(vs, "; ")))
-	}
-	// free the handlers that were scripted not to answer and wait for them
-	for n := 1; n <= tc.nodes; n++ {
-		f := w.fakes[n-1]
-		f.mu.Lock()
-		close(f.release)
-		f.mu.Unlock()
-	}
-	for n := 1; n <= tc.nodes; n++ {
-		w.fakes[n-1].inflight.Wait()
-	}
-	for v := 1; v <= tc.nv; v++ {
-		var per []string
 		for n := 1; n <= tc.nodes; n++ {
 			f := w.fakes[n-1]
 			f.mu.Lock()
-			l := append([]string{}, f.log[uint32(v)]...)
-			f.mu.Unlock()
-			for _, r := range l {
-				if r == "RCompact" {
-					nontrivial = true
+			f.scripts = map[uint32]script{}
+			f.log = map[uint32][]string{}
+			f.at = map[string]time.Time{}
+			f.release = make(chan struct{})
+			f.onCompact = hook
+			stop := false
+			for vid, sm := range p.scripts {
+				if s, ok := sm[n]; ok {
+					f.scripts[vid] = s
+					if s.ck == ckTimeout || s.cp == cpTimeout {
+						needTimer = true
+					}
+					if s.ck == ckDial {
+						stop = true
+					}
 				}
 			}
-			logs = append(logs, fmt.Sprintf("((%d, %d), [%s])", v, n, strings.Join(l, "; ")))
-			s, ok := tc.scripts[uint32(v)][n]
-			if !ok {
-				s = script{ckOver, cpOk, cmOk}
+			f.mu.Unlock()
+			if stop {
+				f.srv.Stop() // nobody listens on this replica's address any more
 			}
-			per = append(per, fmt.Sprintf("(%d, %s)", n, s.coq()))
-			canon = append(canon, s.canon())
 		}
-		scs = append(scs, fmt.Sprintf("(%d, [%s])", v, strings.Join(per, "; ")))
+		var t0 time.Time
+		if !panicked {
+			if needTimer {
+				topology.VerifC14SetTopologyVolumeSizeLimit(m.topo, timerLimit)
+			}
+			t0 = time.Now()
+			done := make(chan struct{})
+			go func() {
+				defer close(done)
+				defer func() {
+					if r := recover(); r != nil {
+						panicked = true
+					}
+				}()
+				m.topo.Vacuum(grpc.WithInsecure(), threshold, 0)
+			}()
+			// wait for the call to return, or for a commit handler to start hanging
+			entered := make(chan struct{}, 1)
+			stopWatch := make(chan struct{})
+			for _, f := range w.fakes {
+				go func(f *fakeVS) {
+					select {
+					case <-f.hangEntered:
+						select {
+						case entered <- struct{}{}:
+						default:
+						}
+					case <-stopWatch:
+					}
+				}(f)
+			}
+			select {
+			case <-done:
+			case <-entered:
+				// the commit RPC has no deadline; give the call another 500 ms to return
+				select {
+				case <-done:
+				case <-time.After(500 * time.Millisecond):
+					hungDone = done
+				}
+			}
+			close(stopWatch)
+			if needTimer && hungDone == nil {
+				topology.VerifC14SetTopologyVolumeSizeLimit(m.topo, limit)
+			}
+		}
+
+		if needTimer && !panicked { // such passes have one vid (1)
+			count := func() (n int, last time.Time) {
+				for _, f := range w.fakes {
+					if t, ok := f.receivedAt(1, "RCheck"); ok {
+						n++
+						if t.After(last) {
+							last = t
+						}
+						if t.Sub(t0) > 250*time.Millisecond {
+							suspicious = true
+						}
+					}
+				}
+				return
+			}
+			nCheck, lastCheck := count()
+			expect := 0
+			for n, s := range p.scripts[1] {
+				_ = n
+				if s.ck != ckDial {
+					expect++
+				}
+			}
+			if nCheck < expect && nCheck < len(m.topo.Lookup("", needle.VolumeId(1))) {
+				// either the round was skipped before the check phase (no request at all)
+				// or a request is still on its way
+				time.Sleep(300 * time.Millisecond)
+				if n2, _ := count(); n2 != nCheck || nCheck != 0 {
+					suspicious = true
+				}
+			}
+			for _, f := range w.fakes {
+				if t, ok := f.receivedAt(1, "RCompact"); ok && t.Sub(lastCheck) > 400*time.Millisecond {
+					suspicious = true
+				}
+			}
+		}
+
+		// observables of the pass
+		vl := m.layout(rp)
+		cvl := ctl.layout(rp)
+		hung := hungDone != nil
+		if hung != topology.VerifC14VacuumRunning(m.topo) {
+			panic("vacuum guard and harness disagree about a running vacuum")
+		}
+		// free the check/compact handlers that were scripted not to answer and wait for them
+		for n := 1; n <= tc.nodes; n++ {
+			f := w.fakes[n-1]
+			f.mu.Lock()
+			close(f.release)
+			f.mu.Unlock()
+		}
+		for n := 1; n <= tc.nodes; n++ {
+			w.fakes[n-1].inflight.Wait()
+		}
+		var logs, scs, mids []string
+		for v := 1; v <= tc.nv; v++ {
+			var per []string
+			for n := 1; n <= tc.nodes; n++ {
+				f := w.fakes[n-1]
+				f.mu.Lock()
+				l := append([]string{}, f.log[uint32(v)]...)
+				f.mu.Unlock()
+				for _, r := range l {
+					if r == "RCompact" {
+						nontrivial = true
+					}
+				}
+				logs = append(logs, fmt.Sprintf("((%d, %d), [%s])", v, n, strings.Join(l, "; ")))
+				s, ok := p.scripts[uint32(v)][n]
+				if !ok {
+					s = script{ckOver, cpOk, cmOk}
+				}
+				per = append(per, fmt.Sprintf("(%d, %s)", n, s.coq()))
+				canon = append(canon, s.canon())
+			}
+			scs = append(scs, fmt.Sprintf("(%d, [%s])", v, strings.Join(per, "; ")))
+			if es, ok := p.mid[uint32(v)]; ok {
+				mids = append(mids, fmt.Sprintf("(%d, %s)", v, evsCoq(es)))
+				canon = append(canon, fmt.Sprintf("m%d:%s", v, evsCanon(es)))
+			}
+		}
+		canon = append(canon, "p:"+evsCanon(p.pre))
+		obs = append(obs, fmt.Sprintf("{| ob_writ := %s; ob_look := %s; ob_ro := %s; ob_os := %s; ob_reg := %s; ob_log := [%s]%%N; ob_hung := %s; ob_panic := %s; ob_ctrl := %s; ob_ctrl_look := %s |}",
+			sortedU32(topology.VerifC11Writables(vl)), m.looks(tc.nv),
+			sortedU32(topology.VerifC11ReadonlyVids(vl)), sortedU32(topology.VerifC11OversizedVids(vl)),
+			m.regs(tc.nodes), strings.Join(logs, "; "), hx.Bool(hung), hx.Bool(panicked),
+			sortedU32(topology.VerifC11Writables(cvl)), ctl.looks(tc.nv)))
+		passTerms = append(passTerms, fmt.Sprintf("{| p_pre := %s; p_scs := [%s]%%N; p_mid := [%s]%%N |}",
+			evsCoq(p.pre), strings.Join(scs, "; "), strings.Join(mids, "; ")))
 	}
-	var ev, evc []string
-	for _, e := range tc.setup {
-		ev = append(ev, e.coq())
-		evc = append(evc, e.canon())
+	// end of the case: let a hanging commit fail so that the blocked Vacuum call ends
+	for _, f := range w.fakes {
+		close(f.hangRelease)
 	}
-	term := fmt.Sprintf("{| k_cfg := {| c_copy := %d; c_asmin := %s; c_limit := %d |}; k_setup := %s; k_scripts := [%s]%%N; k_vids := [%s]%%N; k_nodes := [%s]%%N; k_before := %s; k_after := %s; k_look := [%s]%%N; k_reg := [%s]%%N; k_log := [%s]%%N |}",
-		copies(tc.rp), hx.Bool(tc.asMin), limit, hx.List(ev), strings.Join(scs, "; "), strings.Join(vids, "; "), strings.Join(nodes, "; "),
-		before, after, strings.Join(look, "; "), strings.Join(reg, "; "), strings.Join(logs, "; "))
-	return result{term: term, canon: fmt.Sprintf("%s/%v/%d|%s|%s", tc.rp, tc.asMin, tc.nodes, strings.Join(evc, ";"), strings.Join(canon, ",")),
+	if hungDone != nil {
+		<-hungDone
+	}
+	for _, f := range w.fakes {
+		f.hanging.Wait()
+	}
+
+	var vids, nodes []string
+	for v := 1; v <= tc.nv; v++ {
+		vids = append(vids, fmt.Sprint(v))
+	}
+	for n := 1; n <= tc.nodes; n++ {
+		nodes = append(nodes, fmt.Sprint(n))
+	}
+	term := fmt.Sprintf("{| k_cfg := {| c_copy := %d; c_asmin := %s; c_limit := %d |}; k_setup := %s; k_passes := %s; k_vids := [%s]%%N; k_nodes := [%s]%%N; k_before := %s; k_obs := %s |}",
+		copies(tc.rp), hx.Bool(tc.asMin), limit, evsCoq(tc.setup), hx.List(passTerms), strings.Join(vids, "; "), strings.Join(nodes, "; "),
+		before, hx.List(obs))
+	return result{term: term, canon: fmt.Sprintf("%s/%v/%d|%s|%s", tc.rp, tc.asMin, tc.nodes, evsCanon(tc.setup), strings.Join(canon, ",")),
 		nontrivial: nontrivial}, suspicious
 }
 
@@ -517,35 +729,154 @@ func baseline(n int) []event {
 	return evs
 }
 
-// combo number x in base 27^n: per replica (ck in {over,err,timeout}, cp, cm)
-func combo(n, x int) map[uint32]map[int]script {
+func one(m map[int]script) []pass {
+	return []pass{{scripts: map[uint32]map[int]script{1: m}}}
+}
+
+var okS = script{ckOver, cpOk, cmOk}
+
+func allOk(n int) map[int]script {
 	m := map[int]script{}
 	for i := 1; i <= n; i++ {
-		d := x % 27
-		x /= 27
-		m[i] = script{ck: []int{ckOver, ckErr, ckTimeout}[d/9], cp: (d / 3) % 3, cm: d % 3}
+		m[i] = okS
 	}
-	return map[uint32]map[int]script{1: m}
+	return m
+}
+
+// The exhaustive part.  Per replica every (check in {over, under}) x (compact in
+// {ok, error, timeout}) x (commit in {ok, ok+readonly, error}): 18 and 324
+// combinations for 1 and 2 replicas; the combinations in which some check fails
+// (error, timeout, dial failure) never reach the compact phase and are collapsed to
+// one representative per failing replica, kind of failure and over/under of the
+// other replica.
+func exhaustive() []tcase {
+	dig := func(d int) script { return script{ck: []int{ckOver, ckUnder}[d/9], cp: (d / 3) % 3, cm: d % 3} }
+	var out []tcase
+	for d := 0; d < 18; d++ {
+		out = append(out, tcase{rp: "000", nodes: 1, nv: 1, setup: baseline(1), passes: one(map[int]script{1: dig(d)}), kind: "exhaustive-1-replica"})
+	}
+	for _, bad := range []int{ckErr, ckTimeout, ckDial} {
+		out = append(out, tcase{rp: "000", nodes: 1, nv: 1, setup: baseline(1), passes: one(map[int]script{1: {bad, cpOk, cmOk}}), kind: "check-failure-1-replica"})
+	}
+	for d := 0; d < 18*18; d++ {
+		out = append(out, tcase{rp: "001", nodes: 2, nv: 1, setup: baseline(2), passes: one(map[int]script{1: dig(d % 18), 2: dig(d / 18)}), kind: "exhaustive-2-replicas"})
+	}
+	for _, bad := range []int{ckErr, ckTimeout, ckDial} {
+		for who := 1; who <= 2; who++ {
+			for _, other := range []int{ckOver, ckUnder} {
+				out = append(out, tcase{rp: "001", nodes: 2, nv: 1, setup: baseline(2),
+					passes: one(map[int]script{who: {bad, cpOk, cmOk}, 3 - who: {other, cpOk, cmOk}}), kind: "check-failure-2-replicas"})
+			}
+		}
+	}
+	return out
 }
 
 func witnesses() []tcase {
 	f := false
-	ok := script{ckOver, cpOk, cmOk}
+	v1 := vinfo{1, 10, false}
 	return []tcase{
-		{rp: "000", nodes: 1, nv: 1, setup: baseline(1), kind: "witness-stuck-after-compact-error",
-			scripts: map[uint32]map[int]script{1: {1: {ckOver, cpErr, cmOk}}}},
+		// finding 0, then a clean pass puts the volume back (c14_recovers_on_next_clean_round)
+		{rp: "000", nodes: 1, nv: 1, setup: baseline(1), kind: "witness-stuck-after-compact-error-then-clean-pass",
+			passes: []pass{{scripts: map[uint32]map[int]script{1: {1: {ckOver, cpErr, cmOk}}}}, {scripts: map[uint32]map[int]script{1: {1: okS}}}}},
 		{rp: "001", nodes: 2, nv: 1, kind: "witness-readmitted-with-readonly-replica",
-			setup:   []event{full(1, vinfo{1, 10, f}), full(2, vinfo{1, 10, f}), full(2, vinfo{1, 10, true})},
-			scripts: map[uint32]map[int]script{1: {1: ok, 2: ok}}},
+			setup:  []event{full(1, v1), full(2, v1), full(2, vinfo{1, 10, true})},
+			passes: one(allOk(2))},
 		{rp: "000", nodes: 1, nv: 1, kind: "witness-readmitted-oversized",
-			setup:   []event{full(1, vinfo{1, 10, f}), full(1, vinfo{1, 150, f}), {kind: "collect"}},
-			scripts: map[uint32]map[int]script{1: {1: ok}}},
+			setup:  []event{full(1, vinfo{1, 10, f}), full(1, vinfo{1, 150, f}), {kind: "collect"}},
+			passes: one(allOk(1))},
 		{rp: "001", nodes: 2, nv: 1, setup: baseline(2), kind: "witness-stuck-after-commit-error",
-			scripts: map[uint32]map[int]script{1: {1: ok, 2: {ckOver, cpOk, cmErr}}}},
+			passes: one(map[int]script{1: okS, 2: {ckOver, cpOk, cmErr}})},
+		// finding 2: the commit never answers; a second Topology.Vacuum returns at once
+		{rp: "000", nodes: 1, nv: 1, setup: baseline(1), kind: "witness-commit-never-answers",
+			passes: []pass{{scripts: map[uint32]map[int]script{1: {1: {ckOver, cpOk, cmHang}}}}, {scripts: map[uint32]map[int]script{1: {1: okS}}}}},
+		// finding 3: the layout loses the entry while node 1 compacts
+		{rp: "001", nodes: 2, nv: 1, setup: baseline(2), kind: "witness-panic-layout-deleted-during-compaction",
+			passes: []pass{{scripts: map[uint32]map[int]script{1: {1: okS, 2: {ckUnder, cpOk, cmOk}}},
+				mid: map[uint32][]event{1: {{kind: "disc", node: 1}, full(2)}}}}},
+		{rp: "000", nodes: 1, nv: 1, setup: baseline(1), kind: "witness-panic-volume-dropped-and-reported-again",
+			passes: []pass{{scripts: map[uint32]map[int]script{1: {1: okS}}, mid: map[uint32][]event{1: {full(1), full(1, v1)}}}}},
+		// finding 4: the replica disconnects while it compacts
+		{rp: "000", nodes: 1, nv: 1, setup: baseline(1), kind: "witness-commit-readds-unlinked-datanode",
+			passes: []pass{{scripts: map[uint32]map[int]script{1: {1: okS}}, mid: map[uint32][]event{1: {{kind: "disc", node: 1}}}}}},
+		// the threshold comparison is >=: a ratio exactly at the threshold is vacuumed
+		{rp: "001", nodes: 2, nv: 1, setup: baseline(2), kind: "boundary-ratio-equals-threshold",
+			passes: one(map[int]script{1: {ckEq, cpOk, cmOk}, 2: {ckUnder, cpOk, cmOk}})},
+		// a read-only flip while the replicas compact (no finding: the commit re-checks the committing replica)
+		{rp: "000", nodes: 1, nv: 1, setup: baseline(1), kind: "readonly-flip-during-compaction",
+			passes: []pass{{scripts: map[uint32]map[int]script{1: {1: okS}}, mid: map[uint32][]event{1: {full(1, vinfo{1, 10, true})}}}}},
 	}
 }
 
 var sizes = []uint64{0, 10, 50, 99, 100, 101, 150}
+
+// what the volume servers of a case currently hold (to build full heartbeats)
+type world struct {
+	srv map[int]map[uint32]*vinfo
+	nv  int
+	n   int
+}
+
+func (w *world) snap(i int) []vinfo {
+	var o []vinfo
+	for _, v := range w.srv[i] {
+		o = append(o, *v)
+	}
+	sort.Slice(o, func(a, b int) bool { return o[a].id < o[b].id })
+	return o
+}
+
+// one random change of the registered state; returns the events and whether a
+// node was disconnected
+func (w *world) change(r *hx.Rng, out *hx.Out, where string) ([]event, bool) {
+	i := r.Range(1, w.n)
+	v := uint32(r.Range(1, w.nv))
+	switch c := r.Intn(12); {
+	case c < 3:
+		if x := w.srv[i][v]; x != nil {
+			x.ro = !x.ro
+			out.Count(where+":ro-flip", 1)
+		}
+		return []event{full(i, w.snap(i)...)}, false
+	case c < 5:
+		if x := w.srv[i][v]; x != nil {
+			x.size = r.PickU64(sizes)
+			out.Count(where+":resize", 1)
+		}
+		return []event{full(i, w.snap(i)...)}, false
+	case c < 7:
+		out.Count(where+":collect", 1)
+		return []event{{kind: "collect"}}, false
+	case c < 8:
+		if w.srv[i][v] == nil {
+			w.srv[i][v] = &vinfo{v, 0, false}
+		} else {
+			w.srv[i][v].size, w.srv[i][v].ro = 0, false
+		}
+		out.Count(where+":incr-new", 1)
+		return []event{{kind: "incr", node: i, news: []uint32{v}}}, false
+	case c < 10:
+		// the volume disappears from the node's report (and maybe comes back)
+		if x := w.srv[i][v]; x != nil {
+			delete(w.srv[i], v)
+			evs := []event{full(i, w.snap(i)...)}
+			out.Count(where+":volume-dropped", 1)
+			if r.Bool() {
+				w.srv[i][v] = x
+				evs = append(evs, full(i, w.snap(i)...))
+			}
+			return evs, false
+		}
+		return []event{full(i, w.snap(i)...)}, false
+	default:
+		out.Count(where+":disconnect", 1)
+		evs := []event{{kind: "disc", node: i}}
+		if r.Bool() {
+			evs = append(evs, full(i, w.snap(i)...))
+		}
+		return evs, true
+	}
+}
 
 func randomCase(r *hx.Rng, out *hx.Out) tcase {
 	n := r.Range(1, 3)
@@ -557,17 +888,9 @@ func randomCase(r *hx.Rng, out *hx.Out) tcase {
 	}
 	tc.rp = rpOf[cc]
 	tc.asMin = r.Chance(1, 3)
-	srv := map[int]map[uint32]*vinfo{}
+	w := &world{srv: map[int]map[uint32]*vinfo{}, nv: tc.nv, n: n}
 	for i := 1; i <= n; i++ {
-		srv[i] = map[uint32]*vinfo{}
-	}
-	snap := func(i int) []vinfo {
-		var o []vinfo
-		for _, v := range srv[i] {
-			o = append(o, *v)
-		}
-		sort.Slice(o, func(a, b int) bool { return o[a].id < o[b].id })
-		return o
+		w.srv[i] = map[uint32]*vinfo{}
 	}
 	// every node reports every vid first (mostly small and writable)
 	for i := 1; i <= n; i++ {
@@ -577,103 +900,141 @@ func randomCase(r *hx.Rng, out *hx.Out) tcase {
 				if r.Chance(1, 8) {
 					sz = r.PickU64(sizes)
 				}
-				srv[i][uint32(v)] = &vinfo{uint32(v), sz, r.Chance(1, 10)}
+				w.srv[i][uint32(v)] = &vinfo{uint32(v), sz, r.Chance(1, 10)}
 			}
 		}
-		tc.setup = append(tc.setup, full(i, snap(i)...))
+		tc.setup = append(tc.setup, full(i, w.snap(i)...))
 	}
 	// then a few changes
-	k := r.Range(0, 5)
+	k := r.Range(0, 4)
 	for j := 0; j < k; j++ {
-		i := r.Range(1, n)
-		v := uint32(r.Range(1, tc.nv))
-		switch c := r.Intn(10); {
-		case c < 3:
-			if x := srv[i][v]; x != nil {
-				x.ro = !x.ro
-				out.Count("setup:ro-flip", 1)
-			}
-			tc.setup = append(tc.setup, full(i, snap(i)...))
-		case c < 6:
-			if x := srv[i][v]; x != nil {
-				x.size = r.PickU64(sizes)
-				out.Count("setup:resize", 1)
-			}
-			tc.setup = append(tc.setup, full(i, snap(i)...))
-		case c < 8:
-			tc.setup = append(tc.setup, event{kind: "collect"})
-			out.Count("setup:collect", 1)
-		case c < 9:
-			tc.setup = append(tc.setup, event{kind: "incr", node: i, news: []uint32{v}})
-			if srv[i][v] == nil {
-				srv[i][v] = &vinfo{v, 0, false}
-			} else {
-				srv[i][v].size, srv[i][v].ro = 0, false
-			}
-			out.Count("setup:incr-new", 1)
-		default:
-			tc.setup = append(tc.setup, event{kind: "disc", node: i})
-			out.Count("setup:disconnect", 1)
-			if r.Bool() {
-				tc.setup = append(tc.setup, full(i, snap(i)...))
-			}
-		}
+		evs, _ := w.change(r, out, "setup")
+		tc.setup = append(tc.setup, evs...)
 	}
 	if r.Chance(2, 3) {
 		tc.setup = append(tc.setup, event{kind: "collect"})
 	}
-	tc.scripts = map[uint32]map[int]script{}
-	for v := 1; v <= tc.nv; v++ {
-		m := map[int]script{}
-		for i := 1; i <= n; i++ {
-			s := script{ckOver, cpOk, cmOk}
-			if r.Chance(1, 4) {
-				s.ck = []int{ckUnder, ckUnder, ckErr, ckTimeout}[r.Intn(4)]
+	np := r.Range(1, 3)
+	anyHang := false
+	for pi := 0; pi < np; pi++ {
+		p := pass{scripts: map[uint32]map[int]script{}}
+		if pi > 0 {
+			for j := r.Range(0, 2); j > 0; j-- {
+				evs, _ := w.change(r, out, "between-passes")
+				p.pre = append(p.pre, evs...)
 			}
-			if r.Chance(1, 4) {
-				s.cp = []int{cpErr, cpErr, cpErr, cpTimeout}[r.Intn(4)]
-			}
-			if r.Chance(1, 4) {
-				s.cm = r.Range(1, 2)
-			}
-			if tc.nv > 1 { // the master's timers are only exercised on one-vid layouts
-				if s.ck == ckTimeout {
-					s.ck = ckErr
-				}
-				if s.cp == cpTimeout {
-					s.cp = cpErr
-				}
-			}
-			m[i] = s
 		}
-		tc.scripts[uint32(v)] = m
+		// master-side events while the replicas compact: one-vid layouts only (the
+		// order of the rounds of a pass is Go map order)
+		last := false
+		if tc.nv == 1 && r.Chance(1, 3) {
+			var mid []event
+			for j := r.Range(1, 3); j > 0; j-- {
+				evs, disc := w.change(r, out, "during-compaction")
+				mid = append(mid, evs...)
+				last = last || disc
+			}
+			p.mid = map[uint32][]event{1: mid}
+		}
+		// a disconnect during the compaction: SetVolumeAvailable appends the unlinked
+		// node to the location list, so the outcome depends on the order of the vacuum
+		// list (arrival order of the check answers) - keep exactly one replica in it
+		solo := 0
+		if last {
+			solo = r.Range(1, n)
+		}
+		hangAt := 0
+		if tc.nv == 1 && r.Chance(1, 25) {
+			hangAt = r.Range(1, n)
+			anyHang = true
+			out.Count("commit-never-answers", 1)
+		}
+		for v := 1; v <= tc.nv; v++ {
+			m := map[int]script{}
+			for i := 1; i <= n; i++ {
+				s := script{ckOver, cpOk, cmOk}
+				if r.Chance(1, 4) {
+					s.ck = []int{ckUnder, ckUnder, ckUnder, ckErr, ckTimeout, ckEq}[r.Intn(6)]
+				}
+				if r.Chance(1, 4) {
+					s.cp = []int{cpErr, cpErr, cpErr, cpTimeout}[r.Intn(4)]
+				}
+				if r.Chance(1, 4) {
+					s.cm = r.Range(1, 2)
+				}
+				// the master's timers are only exercised on one-vid layouts, in passes
+				// without events during the compaction
+				if tc.nv > 1 || p.mid != nil {
+					if s.ck == ckTimeout {
+						s.ck = ckErr
+					}
+					if s.cp == cpTimeout {
+						s.cp = cpErr
+					}
+				}
+				if solo != 0 && i != solo && hangAt == 0 {
+					s.ck = ckUnder
+				}
+				if hangAt != 0 { // exactly one replica is vacuumed: the one that never answers the commit
+					if i == hangAt {
+						s = script{ckOver, cpOk, cmHang}
+					} else {
+						s = script{ckUnder, cpOk, cmOk}
+					}
+				}
+				m[i] = s
+			}
+			p.scripts[uint32(v)] = m
+		}
+		if pi == np-1 && !anyHang && r.Chance(1, 12) {
+			// the last pass may find a replica's address dead (not after a commit that
+			// never answers: stopping that server would end the hanging RPC)
+			i := r.Range(1, n)
+			for v := range p.scripts {
+				s := p.scripts[v][i]
+				s.ck = ckDial
+				p.scripts[v][i] = s
+			}
+		}
+		tc.passes = append(tc.passes, p)
+		if last { // a pass with a disconnect during the compaction is the last one of its case
+			break
+		}
+	}
+	return tc
+}
+
+func sampled3(r *hx.Rng) tcase {
+	m := map[int]script{}
+	for i := 1; i <= 3; i++ {
+		m[i] = script{ck: []int{ckOver, ckOver, ckOver, ckUnder, ckUnder, ckEq, ckErr, ckTimeout}[r.Intn(8)], cp: r.Intn(3), cm: r.Intn(3)}
+	}
+	tc := tcase{rp: "002", nodes: 3, nv: 1, setup: baseline(3), passes: one(m), kind: "sampled-3-replicas"}
+	if r.Chance(1, 2) { // a second pass with all RPCs ok
+		tc.passes = append(tc.passes, pass{scripts: map[uint32]map[int]script{1: allOk(3)}})
 	}
 	return tc
 }
 
 func main() {
 	shard := flag.Int("shard", 250, "cases per shard (as in checks/C14.json); the shard number is seed % 1000")
-	workers := flag.Int("workers", 12,"cases run concurrently (each on its own fake volume servers)")
+	workers := flag.Int("workers", 12, "cases run concurrently (each on its own fake volume servers)")
 	out := hx.Flags("C14", 250)
 	fla9.Set("alsologtostderr", "false") // glog: files under TMPDIR only
-	out.Rule = "global case number g = (seed % 1000) * shard + i: g 0-3 fixed witnesses of findings 0 and 1; next 27: every (check in {over,error,timeout}) x (compact in {ok,error,timeout}) x (commit in {ok,ok+readonly,error}) for 1 replica; next 729: all combinations for 2 replicas; then 3 replicas with a random combination (sampled) alternating with random cases (1-3 replicas, 1-2 vids, replication 000/001/002, as-minimum, setup history with read-only flips, resizes, collector sweeps, incremental messages, disconnects; scripts also with check-under-threshold); timeouts use the real timers (647 ms / 1.94 s, see the file comment); non-trivial = some replica received a compact RPC; distinct = config + setup + scripts"
+	out.Rule = "global case number g = (seed % 1000) * shard + i: first the fixed witnesses of findings 0-4 and boundary cases (ratio == threshold, read-only flip during compaction); then every (check in {over,under}) x (compact in {ok,error,timeout}) x (commit in {ok,ok+readonly,error}) per replica for 1 replica (18) and 2 replicas (324) plus one representative per (failing replica, check error / timeout / dial failure, other replica over/under); then 3 replicas with a random combination (sampled, half of them followed by a clean second pass) alternating with random cases: 1-3 replicas, 1-2 vids, replication 000/001/002, as-minimum, setup history with read-only flips, resizes, collector sweeps, incremental messages, dropped volumes, disconnects; 1-3 passes of Topology.Vacuum with events between passes and (one-vid layouts only, such a pass has no timeout scripts; a pass with a disconnect during compaction is the last) events fired from inside the fake Compact handler; commit-never-answers only on one-vid layouts with exactly one replica over the threshold, and a pass with a disconnect during compaction also has exactly one replica over the threshold (the outcome would depend on the arrival order of the check answers); a dial failure only in the last pass; timeouts use the real timers (647 ms / 1.94 s, see the file comment); non-trivial = some replica received a compact RPC; distinct = config + setup + passes"
 	k := int(out.Seed % 1000) // bin/check runs shard k with seed VERIF_SEED*1000+k
 	// Fork once: hx.NewRng(seed+1) is hx.NewRng(seed) advanced by one draw
 	root := hx.NewRng(out.Seed).Fork()
 	var tcs []tcase
-	wit := witnesses()
+	fixed := append(witnesses(), exhaustive()...)
 	for i := 0; i < out.N; i++ {
 		g := k**shard + i
 		r := root.Fork()
 		switch {
-		case g < len(wit):
-			tcs = append(tcs, wit[g])
-		case g < len(wit)+27:
-			tcs = append(tcs, tcase{rp: "000", nodes: 1, nv: 1, setup: baseline(1), scripts: combo(1, g-len(wit)), kind: "exhaustive-1-replica"})
-		case g < len(wit)+27+729:
-			tcs = append(tcs, tcase{rp: "001", nodes: 2, nv: 1, setup: baseline(2), scripts: combo(2, g-len(wit)-27), kind: "exhaustive-2-replicas"})
+		case g < len(fixed):
+			tcs = append(tcs, fixed[g])
 		case g%2 == 0:
-			tcs = append(tcs, tcase{rp: "002", nodes: 3, nv: 1, setup: baseline(3), scripts: combo(3, r.Intn(27*27*27)), kind: "sampled-3-replicas"})
+			tcs = append(tcs, sampled3(r))
 		default:
 			tcs = append(tcs, randomCase(r, out))
 		}
@@ -706,14 +1067,20 @@ func main() {
 	out.Count("runs-discarded-for-late-delivery", int(atomic.LoadInt64(&retries)))
 	for i, tc := range tcs {
 		out.Add(res[i].term, res[i].canon, res[i].nontrivial, tc.kind)
-		for _, m := range tc.scripts {
-			for _, s := range m {
-				out.Count("check:"+[]string{"over", "under", "error", "timeout"}[s.ck], 1)
-				out.Count("compact:"+[]string{"ok", "error", "timeout"}[s.cp], 1)
-				out.Count("commit:"+[]string{"ok", "ok-readonly", "error"}[s.cm], 1)
+		for _, p := range tc.passes {
+			for _, m := range p.scripts {
+				for _, s := range m {
+					out.Count("check:"+[]string{"over", "under", "error", "timeout", "dial-failure", "equal-threshold"}[s.ck], 1)
+					out.Count("compact:"+[]string{"ok", "error", "timeout"}[s.cp], 1)
+					out.Count("commit:"+[]string{"ok", "ok-readonly", "error", "never-answers"}[s.cm], 1)
+				}
+			}
+			if p.mid != nil {
+				out.Count("passes-with-events-during-compaction", 1)
 			}
 		}
 		out.Count(fmt.Sprintf("replicas:%d", tc.nodes), 1)
+		out.Count(fmt.Sprintf("passes:%d", len(tc.passes)), 1)
 	}
 	out.Write()
 }
